@@ -1542,6 +1542,12 @@ pub fn c11_case(tier: &str, seed: u64, case: u64) -> CaseResult {
 	if violation.is_none() {
 		violation = merkle_proof_hex_checks(&mut res, &mut rng);
 	}
+	// bare frame headers announcing enormous bodies, for every type byte including the ones no
+	// message uses, through both readers (the codec of an established connection and
+	// `read_message` of the handshake); forked so that an abort is an exit status
+	if violation.is_none() {
+		violation = frame_header_sweep(&mut res, &mut rng);
+	}
 	if let Some(v) = violation {
 		res.violations.push(v);
 	}
@@ -1611,6 +1617,103 @@ fn merkle_proof_hex_checks(res: &mut CaseResult, rng: &mut SimRng) -> Option<Vio
 	None
 }
 
+/// One bare frame header in a forked child. Returns None if the reader returned (with a message or
+/// an error) without panicking, aborting, hanging or asking for a large allocation.
+fn frame_header_child(ty: u8, len: u64, path: &str, trailer: &[u8]) -> Option<String> {
+	let mut f = vec![];
+	f.extend_from_slice(&magic());
+	f.push(ty);
+	f.extend_from_slice(&len.to_be_bytes());
+	f.extend_from_slice(trailer);
+	let path_codec = path == "codec";
+	let pid = unsafe { libc::fork() };
+	if pid == 0 {
+		let lim = libc::rlimit { rlim_cur: 4 << 30, rlim_max: 4 << 30 };
+		unsafe { libc::setrlimit(libc::RLIMIT_AS, &lim) };
+		grin_core::global::set_local_chain_type(grin_core::global::ChainTypes::AutomatedTesting);
+		let (mut w, mut r) = socket_pair();
+		let _ = w.write_all(&f);
+		let _ = w.flush();
+		drop(w);
+		crate::alloc::reset();
+		let res = std::panic::catch_unwind(std::panic::AssertUnwindSafe(|| {
+			if path_codec {
+				let mut codec = Codec::new(ProtocolVersion::local(), r);
+				for _ in 0..4 {
+					let (res, _) = codec.read();
+					if res.is_err() {
+						break;
+					}
+				}
+			} else {
+				let _ = r.set_read_timeout(Some(Duration::from_millis(2000)));
+				let _: Result<grin_p2p::msg::Hand, _> = msg::read_message(&mut r, ProtocolVersion::local(), Type::Hand);
+			}
+		}));
+		let (_peak, max_req) = crate::alloc::stats();
+		let code = if res.is_err() {
+			101
+		} else if max_req > (1 << 20) {
+			103
+		} else {
+			0
+		};
+		unsafe { libc::_exit(code) }
+	}
+	let mut status: libc::c_int = 0;
+	let t0 = Instant::now();
+	loop {
+		let r = unsafe { libc::waitpid(pid, &mut status, libc::WNOHANG) };
+		if r == pid {
+			break;
+		}
+		if t0.elapsed() > Duration::from_secs(20) {
+			unsafe { libc::kill(pid, libc::SIGKILL) };
+			unsafe { libc::waitpid(pid, &mut status, 0) };
+			return Some("hung".into());
+		}
+		std::thread::sleep(Duration::from_micros(200));
+	}
+	if libc::WIFEXITED(status) {
+		match libc::WEXITSTATUS(status) {
+			0 => None,
+			101 => Some("panicked".into()),
+			103 => Some("over-allocated".into()),
+			c => Some(format!("exit{}", c)),
+		}
+	} else {
+		Some(format!("aborted(signal {})", libc::WTERMSIG(status)))
+	}
+}
+
+fn frame_header_sweep(res: &mut CaseResult, rng: &mut SimRng) -> Option<Violation> {
+	let trailer = rng.bytes(40);
+	let mut types: Vec<u8> = (0u8..=40).collect();
+	types.extend_from_slice(&[99, 127, 128, 200, 254, 255]);
+	for ty in types {
+		let known = <Type as num_from::FromU8>::from(ty).is_some();
+		let limit = doc_limit(ty) * 4;
+		for len in [limit + 1, 1u64 << 31, 1u64 << 32, 1u64 << 40, 1u64 << 62, 1u64 << 63, u64::MAX - 7, u64::MAX] {
+			for path in ["codec", "read_message"] {
+				res.runs += 1;
+				res.steps += 1;
+				res.fault(&format!("huge_frame_header:{}", path));
+				res.run_digests.push((fnv64(format!("hdrsweep:{}:{}:{}", ty, len, path).as_bytes()), true));
+				if let Some(how) = frame_header_child(ty, len, path, &trailer) {
+					let replay = json!({"engine": "wiresim", "property": "C11", "mode": "frame-header", "type": ty, "len": len.to_string(), "path": path, "trailer": hexs(&trailer)});
+					return Some(viol(
+						"C11",
+						&format!("frame-header-{}:{}", how.split('(').next().unwrap_or(""), if known { format!("type{}", ty) } else { "unknown".into() }),
+						format!("an 11 byte frame header of type {} announcing {} bytes made the {} reader: {} (it must answer with an error and ask for no memory)", ty, len, path, how),
+						replay,
+					));
+				}
+			}
+		}
+	}
+	None
+}
+
 pub fn replay_c11(rp: &Value) -> Result<Option<Violation>, String> {
 	match rp["mode"].as_str().unwrap_or("") {
 		"hostile" => {
@@ -1631,6 +1734,15 @@ pub fn replay_c11(rp: &Value) -> Result<Option<Violation>, String> {
 			let mut res = CaseResult::new(0, 0);
 			let mut rng = SimRng::new(1);
 			Ok(merkle_proof_hex_checks(&mut res, &mut rng))
+		}
+		"frame-header" => {
+			let ty = rp["type"].as_u64().unwrap_or(0) as u8;
+			let len: u64 = rp["len"].as_str().unwrap_or("0").parse().unwrap_or(0);
+			let path = rp["path"].as_str().unwrap_or("codec");
+			let trailer = unhex(rp["trailer"].as_str().unwrap_or(""));
+			let how = frame_header_child(ty, len, path, &trailer);
+			println!("  type {} len {} path {}: {:?}", ty, len, path, how);
+			Ok(how.map(|h| viol("C11", "replayed", h, rp.clone())))
 		}
 		m => Err(format!("unknown C11 replay mode {}", m)),
 	}
